@@ -309,9 +309,14 @@ func child(r *ev.Run, p *plan) {
 			if v.Accepted {
 				validated++
 				r.Add("traces_validated_against_impl", 1)
+			} else if inv, at, prob := validateFree(t, 4*time.Minute); inv != "" && at >= 1 && at <= len(t.Lines) {
+				// the goroutine programs of GluonLocks cannot follow the recording; the lock discipline alone judges it
+				l := t.Lines[at-1]
+				r.Violate("trace/"+inv+"/"+l.G+"/"+l.Op+"-"+l.Obj, fmt.Sprintf("the recorded run of the real server cannot be followed by GluonLocks from event %d on, and it breaks the lock hierarchy (%s of GluonLocksFree) at event %d: %s:%s acquires %s while it holds a lock that ranks above it\n%s\n%s",
+					v.At, inv, at, l.G, l.ID, l.Obj, around(t, at, 14, 2), sc.describe()), rp)
 			} else {
-				r.Machinery("trace of round %d is not a behaviour of GluonLocks: event %d of %d cannot be followed (spec gap until judged):\n%s\n%s",
-					sc.Round, v.At, len(t.Lines), around(t, v.At, 25, 3), tail(cleanTLC(v.Output), 600))
+				r.Machinery("trace of round %d is not a behaviour of GluonLocks: event %d of %d cannot be followed (spec gap until judged; lock hierarchy along the recording: %s):\n%s\n%s",
+					sc.Round, v.At, len(t.Lines), map[bool]string{true: "respected", false: prob}[prob == ""], around(t, v.At, 25, 3), tail(cleanTLC(v.Output), 600))
 			}
 			break
 		}
